@@ -148,15 +148,18 @@ class BatchProcessTarget(Target):
 class _PyWorker:
     """One worker subprocess of the Python target."""
 
-    def __init__(self, outdir, numpy_dir):
-        self.outdir, self.numpy_dir = outdir, numpy_dir
+    def __init__(self, outdir, numpy_dir, optimize=False, ndarray=False):
+        self.outdir, self.numpy_dir, self.optimize, self.ndarray = outdir, numpy_dir, optimize, ndarray
         self.proc = None
 
     def _start(self):
         env = dict(os.environ)
         env["PYTHONPATH"] = os.pathsep.join([str(self.outdir / "gen")] + ([self.numpy_dir] if self.numpy_dir else []))
         env["PYTHONDONTWRITEBYTECODE"] = "1"
-        self.proc = subprocess.Popen([common.PY, str(HERE / "codec_pyworker.py"), str(self.outdir / "types.json")],
+        env.pop("PYTHONOPTIMIZE", None)
+        if self.ndarray:
+            env["CODEC_PY_NDARRAY"] = "1"
+        self.proc = subprocess.Popen([common.PY] + (["-O"] if self.optimize else []) + [str(HERE / "codec_pyworker.py"), str(self.outdir / "types.json")],
                                      stdin=subprocess.PIPE, stdout=subprocess.PIPE, stderr=subprocess.PIPE, env=env, text=True, bufsize=1)
         first = self.proc.stdout.readline().strip()
         if first != "ready":
@@ -221,9 +224,13 @@ class PyTarget(Target):
     lang = "py"
     n_workers = 4
 
-    def __init__(self, ns, outdir, numpy_dir):
-        super().__init__("py", {"lang": "py"})
+    def __init__(self, ns, outdir, numpy_dir, optimize=False, ndarray=False):
+        """optimize: run the generated code under `python -O` (assert statements do not exist there);
+        ndarray: hand primitive arrays to the setters as ndarrays of the exact dtype (zero-copy fast path)."""
+        name = "py" + ("/-O" if optimize else "") + ("+ndarray" if ndarray else "")
+        super().__init__(name, {"lang": "py", "python_optimize": optimize, "ndarray_inputs": ndarray})
         self.ns, self.outdir, self.numpy_dir = ns, pathlib.Path(outdir), numpy_dir
+        self.optimize, self.ndarray = optimize, ndarray
         self.workers = []
 
     def build(self):
@@ -241,7 +248,7 @@ class PyTarget(Target):
     def ask(self, lines, timeout=900):
         """Requests are dealt to a few worker processes (interleaved, so that the expensive types spread out)."""
         if not self.workers:
-            self.workers = [_PyWorker(self.outdir, self.numpy_dir) for _ in range(self.n_workers)]
+            self.workers = [_PyWorker(self.outdir, self.numpy_dir, self.optimize, self.ndarray) for _ in range(self.n_workers)]
         k = min(len(self.workers), max(1, len(lines) // 50))
         shares = [list(range(i, len(lines), k)) for i in range(k)]
         answers = [None] * len(lines)
